@@ -36,6 +36,14 @@ Coverage table (statement clause / quantifier dimension -> where it is explored 
   "documented defaults"              docs init example + parameter table (cross-checked with docs at start-up).
   "plain run mocks all interfaces"   exported/unexported/generic/embedding interfaces in 2 files, non-interfaces;
                                      ancestor configs 1-2 levels up.  THIN: the mocks are not compiled here (C01).
+  source files of the named package  14 file classes (InitCmdContract!FileClass): hand-written, `// Code generated ... DO NOT
+                                     EDIT.` header, that text after the package clause, _test.go (in-package / external
+                                     _test package), //go:build satisfied / not, GOOS suffix host / foreign, //go:build
+                                     ignore + package main, non-interface types only, doc.go, further files.  Sets: each
+                                     class next to a hand-written file, each compiled class alone, all, all but the
+                                     hand-written one + seed-dependent sets (thorough: all sets of <= 2 and >= 13 classes
+                                     + 40 random); every mock exactly once.  Which files are compiled: go/packages oracle.
+                                     THIN: cgo, GOARCH suffixes, build-tags set in the config, vendored / nested modules.
 """
 import json
 import os
@@ -188,6 +196,58 @@ SUB_Z_GO = """package sub
 
 type Z interface{ Last() }
 """
+# Source-file classes of the package "mix" (ids = InitCmdContract!FileClass; which of them the toolchain compiles
+# into the package and what that means for the run is decided in TLA+, cross-checked with go/types at start-up).
+# Every file is self-contained and cgo-free, the declared names are disjoint, so any subset is a package.
+HOST_GOOS = None
+
+
+def host_goos():
+    global HOST_GOOS
+    if HOST_GOOS is None:
+        p = subprocess.run(["go", "env", "GOOS"], capture_output=True, text=True, env=go_env(), timeout=120)
+        HOST_GOOS = p.stdout.strip()
+        if p.returncode != 0 or not HOST_GOOS:
+            raise MachineryError("go env GOOS failed: " + p.stderr[-300:])
+    return HOST_GOOS
+
+
+def mix_sources():
+    """file class -> (file name, source)"""
+    goos = host_goos()
+    other = "windows" if goos != "windows" else "linux"
+    return {
+        "plain": ("p.go", "package mix\n\ntype P interface{ F(x int) string }\n\ntype pu interface{ G() }\n\ntype PS struct{ X int }\n"),
+        "gen": ("svc_grpc.pb.go", "// Code generated by protoc-gen-go-grpc. DO NOT EDIT.\n// versions:\n// - protoc-gen-go-grpc v1.3.0\n// source: svc.proto\n\n"
+                "package mix\n\nimport \"context\"\n\ntype GenReq struct{ ID string }\n\n"
+                "type GenClient interface {\n\tGet(ctx context.Context, in *GenReq) (*GenReq, error)\n}\n\n"
+                "type GenServer interface {\n\tGet(context.Context, *GenReq) (*GenReq, error)\n\tmustEmbedUnimplementedGenServer()\n}\n\n"
+                "type genUnsafe interface{ mustEmbedUnimplementedGenServer() }\n"),
+        "genmid": ("mid.go", "package mix\n\n// Hand-written.  The table below was pasted from a tool whose output said\n// \"Code generated by tool. DO NOT EDIT.\"\n"
+                   "// -- after the package clause that is not a generated-code marker.\n\ntype GenMid interface{ Mid() }\n"),
+        "intest": ("in_test.go", "package mix\n\ntype InTest interface{ T() }\n"),
+        "exttest": ("ext_test.go", "package mix_test\n\ntype ExtTest interface{ T() }\n"),
+        "tagon": ("tagon.go", "//go:build !verif_c18_never_set\n\npackage mix\n\ntype TagOn interface{ On() bool }\n"),
+        "tagoff": ("tagoff.go", "//go:build verif_c18_never_set\n\npackage mix\n\ntype TagOff interface{ Off() bool }\n"),
+        "suffixon": (f"os_{goos}.go", "package mix\n\ntype SuffixOn interface{ Host() string }\n"),
+        "suffixoff": (f"os_{other}.go", "package mix\n\ntype SuffixOff interface{ Foreign() string }\n"),
+        "ignore": ("mkstuff.go", "//go:build ignore\n\npackage main\n\ntype Ignored interface{ I() }\n\nfunc main() {}\n"),
+        "types": ("types.go", "package mix\n\ntype TS struct{ A int }\n\ntype TF func(int) int\n\ntype TI int\n"),
+        "doc": ("doc.go", "// Package mix is made of the source files one exported case names.\npackage mix\n"),
+        "more1": ("m1.go", "package mix\n\ntype M1 interface{ One() }\n\ntype M1b interface {\n\tM1\n\tTwo(s ...string) error\n}\n"),
+        "more2": ("m2.go", "package mix\n\ntype M2S struct{}\n\ntype M2 interface{ Get() *M2S }\n"),
+    }
+
+
+def write_mix(d, mix):
+    src = mix_sources()
+    d.mkdir(parents=True, exist_ok=True)
+    for f in mix:
+        if f not in src:
+            raise MachineryError(f"source-file class without a concretisation: {f}")
+        (d / src[f][0]).write_text(src[f][1])
+
+
 GO_IFACES = {"root": {"R", "rr"}, "sub": {"A", "b", "C", "G", "Z", "RW", "RC", "GS", "E"}}
 GO_MAY = {"root": set(), "sub": {"Num", "Cmp", "Mixed", "Al", "AlF", "Named"}}
 
@@ -221,6 +281,8 @@ def pkg_string(world, pid):
         return module_of(world)
     if pid == "sub":
         return module_of(world) + "/sub"
+    if pid == "mix":
+        return module_of(world) + "/mix"
     return WEIRD[pid]
 
 
@@ -397,6 +459,8 @@ def make_world(ctx, run, idx, case):
     (root / "sub" / "a.go").write_text(SUB_A_GO)
     (root / "sub" / "z.go").write_text(SUB_Z_GO)
     (root / "cfgs").mkdir()
+    if case.get("mix"):
+        write_mix(root / "mix", case["mix"])
     cwd, target, pre, post = cfg_layout(case["cfg"], root)
     dp = decoy_path(case["cfg"], root)
     if dp is not None and case.get("decoy") == "valid":
@@ -499,18 +563,20 @@ def read_showconfig(out):
 def mocked_interfaces(root, world, pid, hook_events):
     """Which interfaces got a mock: from the written file (constructor + struct per mock); the hook's
     Collect events give the interface<->struct pairing when available."""
-    d = root if pid == "root" else root / "sub"
-    files = [f for f in d.glob("*.go") if f.name not in ("r.go", "a.go", "z.go")]
+    d = root if pid == "root" else root / pid
+    own = {"r.go", "a.go", "z.go"} | {n for n, _ in mix_sources().values()}
+    files = [f for f in d.rglob("*.go") if f.name not in own]
     text = "\n".join(f.read_text(errors="replace") for f in files)
-    structs = set(re.findall(r"^type (\w+)(?:\[[^\n]*\])? struct", text, re.M))
+    # one entry per mock written: a mock written twice (two files, twice in one file) shows twice
+    structs = re.findall(r"^type (\w+)(?:\[[^\n]*\])? struct", text, re.M)
     pairs = {(e.get("iface"), e.get("struct")) for e in hook_events if e.get("ev") == "Collect"}
     if pairs:
-        return sorted(i for i, s in pairs if s in structs)
-    out = set()
+        return sorted(i for i, s in pairs for _ in range(structs.count(s)))
+    out = []
     for s in structs:
         m = re.match(r"^(?:Mock|mock)(\w+)$", s)
         if m and re.search(r"^func New%s\b" % re.escape(s), text, re.M):
-            out.add(m.group(1))
+            out.append(m.group(1))
     return sorted(out)
 
 
@@ -519,7 +585,9 @@ def replay_case(ctx, run, idx, case):
     world = case["world"]
     root, cwd, target, pre, post = make_world(ctx, run, idx, case)
     mod = module_of(world)
-    gopkgs = [{"s": pkg_string(world, p), "ifaces": sorted(GO_IFACES[p]), "may": sorted(GO_MAY[p])} for p in ("root", "sub")]
+    gopkgs = [{"s": pkg_string(world, p), "ifaces": sorted(GO_IFACES[p]), "may": sorted(GO_MAY[p]), "files": []} for p in ("root", "sub")]
+    if case.get("mix"):     # what this package declares follows from its files: InitCmdTrace.tla works it out
+        gopkgs.append({"s": pkg_string(world, "mix"), "ifaces": [], "may": [], "files": sorted(case["mix"])})
     events = [{"op": "reset", "case": idx, "snap": snapshot(target), "parent_ok": target.parent.is_dir(),
                "gopkgs": gopkgs, "anc": case.get("anc", "none")}]
     obs = []
@@ -558,7 +626,7 @@ def replay_case(ctx, run, idx, case):
                                                     load_args(case["cfg"], target, pre, post), tf)
             after = snapshot(target)
             pid = o["pkg"]
-            mocked = mocked_interfaces(root, world, pid, hev) if pid in ("root", "sub") else []
+            mocked = mocked_interfaces(root, world, pid, hev) if pid in ("root", "sub", "mix") else []
             ev = {"op": "run", "case": idx, "exit": code, "before": before, "after": after, "mocked": mocked}
             ob = {"ok": code == 0, "mocked": mocked, "hook": hev}
         else:
@@ -643,7 +711,7 @@ def judge_case(ctx, idx, case, obs):
     world = case["world"]
     for j, (o, ob) in enumerate(zip(case["ops"], obs)):
         base = {"op": o["op"], "from": o.get("from", "cwd"), "world_class": "main" if world == "main" else world[0], "cfg": case["cfg"],
-                "start": case["start"], "env": case.get("env", "none"), "anc": case.get("anc", "none"), "decoy": case.get("decoy", "none"), "pkg_id": o["pkg"], "step": j,
+                "files": ",".join(sorted(case.get("mix") or [])), "start": case["start"], "env": case.get("env", "none"), "anc": case.get("anc", "none"), "decoy": case.get("decoy", "none"), "pkg_id": o["pkg"], "step": j,
                 "str_class": str_class(pkg_string(world, o["pkg"])) if o["pkg"] != "-" else "-"}
         det = {"case": case, "step": j, "observed": {k: v for k, v in ob.items() if k != "hook"}, "pkg_string": pkg_string(world, o["pkg"]) if o["pkg"] != "-" else None,
                "module": module_of(world)}
@@ -675,6 +743,9 @@ def judge_case(ctx, idx, case, obs):
                 elif not (set(e["mocked"]) <= set(ob["mocked"]) <= set(e["mocked"]) | set(e["may"])):
                     bad.append((dict(base, kind="run-mocked", missing=",".join(sorted(set(e["mocked"]) - set(ob["mocked"]))),
                                      extra=",".join(sorted(set(ob["mocked"]) - set(e["mocked"]) - set(e["may"])))), dict(det, expect=e)))
+                elif len(ob["mocked"]) != len(set(ob["mocked"])):
+                    bad.append((dict(base, kind="run-mocked-twice", twice=",".join(sorted({x for x in ob["mocked"] if ob["mocked"].count(x) > 1}))),
+                                dict(det, expect=e)))
     return bad
 
 
@@ -702,6 +773,56 @@ def check_oracle(ctx):
             raise MachineryError(f"go/types says package {pid}: required {got['required']} optional {got['optional']}; "
                                  f"tables say {sorted(GO_IFACES[pid])} / {sorted(GO_MAY[pid])}")
     ctx.cov["oracle"] = "go/types (drivers/initifaces) agrees with IfacesOf / MayOf"
+
+
+def check_oracle_files(ctx, cases, fileclass):
+    """The packages given by their source files: for every set of file classes an exported history runs on, go/packages
+    + go/types (drivers/initifaces) must say what the TLA+ contract says -- the files with status "in" are exactly
+    the ones the toolchain compiles into the package on this host, the interfaces that must be mocked are exactly
+    the method-set interfaces of the type-checked package, and none of the names left open is declared in it."""
+    src = mix_sources()
+    if set(src) != set(fileclass):
+        raise MachineryError(f"file classes of InitCmdContract.tla and checks/c18.py differ: {sorted(set(src) ^ set(fileclass))}")
+    expect = {}
+    for c in cases:
+        for o in c["ops"]:
+            if o["op"] == "run" and o["pkg"] == "mix" and o["expect"]["judged"]:
+                expect.setdefault(frozenset(c["mix"]), o["expect"])
+    if not expect:
+        raise MachineryError("vacuous: no judged run on a package given by its source files")
+    drv = ctx.build_driver("initifaces")
+    w = ctx.scratch / "oracle-files"
+    w.mkdir()
+    (w / "go.mod").write_text("module example.com/w\n\ngo 1.23\n")
+    mixes = sorted(expect, key=sorted)
+    for i, m in enumerate(mixes):
+        write_mix(w / f"o{i}" / "mix", m)
+    p = subprocess.run([str(drv), str(w)] + [f"example.com/w/o{i}/mix" for i in range(len(mixes))],
+                       capture_output=True, text=True, env=go_env(), timeout=600)
+    if p.returncode != 0:
+        raise MachineryError("go/types oracle failed on the file-class packages: " + p.stderr[-800:])
+    got = json.loads(p.stdout)
+    if len(mixes) == 1:
+        got = {got["package"][0]: got}
+    for i, m in enumerate(mixes):
+        g, e = got.get(f"example.com/w/o{i}/mix"), expect[m]
+        if g is None:
+            raise MachineryError(f"go/types oracle returned nothing for files {sorted(m)}")
+        compiled = {src[f][0] for f in m if fileclass[f]["status"] == "in"}
+        other = {n for f in m if fileclass[f]["status"] == "in" for n in fn_(fileclass[f]["other"])}
+        why = None
+        if set(g["gofiles"]) != compiled:
+            why = f"the toolchain compiles {g['gofiles']} (leaves out {g['ignored']}), the contract says {sorted(compiled)}"
+        elif set(g["required"]) != set(e["mocked"]):
+            why = f"go/types: required {g['required']}; contract: {sorted(e['mocked'])}"
+        elif g["optional"] or set(g["other"]) != other:
+            why = f"go/types: optional {g['optional']} other {g['other']}; contract: other {sorted(other)}"
+        elif set(fn_(e["may"])) & (set(g["required"]) | set(g["other"])):
+            why = f"names left open by the contract are declared in the package: {e['may']}"
+        if why:
+            raise MachineryError(f"go/types oracle and InitCmdContract!FileClass disagree for files {sorted(m)}: {why}")
+    ctx.cov["oracle_file_sets"] = len(mixes)
+    return expect
 
 
 def check_docs(ctx, docinit, doctable):
@@ -815,6 +936,10 @@ def run(ctx):
     if {k: set(v) for k, v in ifaces[0].items()} != GO_IFACES or not may or {k: set(fn_(v)) for k, v in may[0].items()} != GO_MAY:
         raise MachineryError("IfacesOf / MayOf in InitCmdMC.tla disagree with the tables in checks/c18.py")
     check_oracle(ctx)
+    fileclass = r.prints("FILECLASSES")
+    if not fileclass:
+        raise MachineryError("TLC did not print the file-class table")
+    fileclass = fileclass[0]
     cases = r.prints("CASE")
     # seed-dependent strings: same state machine, package ids w_r<n> concretised from ctx.rng
     rnd = random_strings(ctx.rng, 120 if thorough else 16)
@@ -823,6 +948,16 @@ def run(ctx):
     groups = [ids[i:i + 4] for i in range(0, len(ids), 4)]
     worlds_txt = ", ".join('W("r%d", {%s, "sub"}, {%s}, {"absent"})' % (gi + 1, ", ".join(json.dumps(x) for x in g), '"default", "rel"' if thorough else '"default"')
                            for gi, g in enumerate(groups))
+    # seed-dependent sets of source files for the package "mix" (each with at least one compiled file that declares
+    # an interface -- the others would be dropped by InitCmd!Init)
+    fcs = sorted(fileclass)
+    declaring = [f for f in fcs if fileclass[f]["status"] == "in" and fn_(fileclass[f]["ifaces"])]
+    rmix = set()
+    while len(rmix) < (40 if thorough else 3):
+        m = set(ctx.rng.sample(fcs, ctx.rng.randint(3, len(fcs) - 2))) | {ctx.rng.choice(declaring)}
+        rmix.add(frozenset(m))
+    worlds_txt += ', WM("rfiles", {"default"}, {%s})' % ", ".join(
+        "{" + ", ".join(json.dumps(f) for f in sorted(m)) + "}" for m in sorted(rmix, key=sorted))
     r2 = ctx.tlc("InitCmdRnd", "InitCmd_rnd.cfg", workers=1, timeout=600, files={"InitCmdRnd.tla": RND_MODULE % worlds_txt})
     if not r2.ok:
         raise MachineryError("TLC failed on InitCmdRnd:\n" + r2.tail())
@@ -897,7 +1032,25 @@ def run(ctx):
     for name, pred in guards.items():
         if not has(pred):
             raise MachineryError(f"vacuous: no exported history with: {name}")
-    used_ids = {o["pkg"] for c in cases for o in c["ops"] if o["pkg"] not in ("-", "root", "sub") and o["pkg"] not in ARG_SHAPES}
+    # source-file classes: every class appears in a judged run; the classes that matter are there on their own terms
+    mix_expect = check_oracle_files(ctx, cases, fileclass)
+    seen_fc = set().union(*mix_expect)
+    if seen_fc != set(fileclass):
+        raise MachineryError(f"vacuous: file classes in no judged run: {sorted(set(fileclass) - seen_fc)}")
+    fguards = {
+        "a file with a generated-code header next to a hand-written one": lambda m: {"gen", "plain"} <= m,
+        "a package that is nothing but a generated file": lambda m: all(fileclass[f]["status"] != "in" or f == "gen" for f in m) and "gen" in m,
+        "a file left out by the toolchain next to compiled ones": lambda m: any(fileclass[f]["status"] == "either" for f in m),
+        "several files declaring interfaces": lambda m: sum(1 for f in m if fileclass[f]["status"] == "in" and fn_(fileclass[f]["ifaces"])) >= 3,
+        "every class at once": lambda m: m == set(fileclass),
+    }
+    for name, pred in fguards.items():
+        if not any(pred(set(m)) for m in mix_expect):
+            raise MachineryError(f"vacuous: no judged run on a package with: {name}")
+    for m, e in mix_expect.items():
+        if not set(e["mocked"]) or set(e["mocked"]) & set(fn_(e["may"])):
+            raise MachineryError(f"vacuous / inconsistent expectation for files {sorted(m)}: {e}")
+    used_ids = {o["pkg"] for c in cases for o in c["ops"] if o["pkg"] not in ("-", "root", "sub", "mix") and o["pkg"] not in ARG_SHAPES}
     unknown_env = {c.get("env", "none") for c in cases} - set(ENVS)
     if unknown_env:
         raise MachineryError(f"environment classes without a concretisation: {unknown_env}")
@@ -1048,11 +1201,16 @@ def run(ctx):
     ctx.cov["histories_replayed"] = len(cases)
     ctx.cov["package_strings"] = len(used_ids) + 2 * len(used_worlds)
     ctx.cov["worlds"] = sorted(used_worlds)
+    ctx.cov["source_file_sets"] = len(mix_expect)
+    ctx.cov["source_file_classes"] = sorted(seen_fc)
+    ctx.cov["runs_on_file_sets"] = sum(1 for c in cases for o in c["ops"] if o["op"] == "run" and o["pkg"] == "mix" and o["expect"]["judged"])
     ctx.assumptions += [
         "small-scope: histories up to MaxHist operations over one target path per behaviour; the alphabets are in spec/InitCmdMC.tla",
         "package strings are the %d listed in checks/c18.py (argv cannot carry NUL; invalid UTF-8 not tried)" % len(WEIRD),
         "documented defaults = the init example of docs/configuration.md, for other keys the parameter table (cross-checked against the docs at start-up)",
         "the plain run is judged only for strings that name a Go package of the scratch module (module paths incl. YAML-significant ones: true, null, 123, 1.5, yes, on, n, 0x1f, 2001-01-01)",
+        "source files of the named package: the 14 classes of InitCmdContract!FileClass (cgo-free; host GOOS from `go env`); which files the toolchain compiles is cross-checked with go/packages at start-up; "
+        "interfaces in _test.go files, in the external _test package and in files excluded on this host are left open (may be mocked or not)",
         "runs as root: permission-based protection of an existing file is not exercised",
         "concurrent inits: real schedules cannot be forced (init.go has no hook); n processes are released from a barrier, several rounds per n -- the model check covers every interleaving, the replay samples them",
     ]
